@@ -347,7 +347,7 @@ package sql
 //@   let id0 := c.xaBranchXid
 //@   ensures autocommit-noop: auto ==> result == nil && ghost.xa_state == old(ghost.xa_state)
 //@   ensures deactivated-on-failure: live && result != nil ==> !c.xaActive
-//@   ensures success-keeps-branch: live && result == nil ==> c.xaActive && c.xaBranchXid == id0
+//@   ensures prepared-branch-is-no-longer-active-on-the-connection: live && result == nil ==> !c.xaActive && (c.isConnKept ==> c.xaBranchXid == id0)
 
 //@ func (*XAConn).Rollback
 //@   prop C17 C16
@@ -364,6 +364,9 @@ package sql
 //@   let auto := c.Conn.autoCommit
 //@   let dead := !c.Conn.autoCommit && !(c.xaActive && c.xaBranchXid != nil)
 //@   ensures not-live-noop: auto || dead ==> ghost.xa_state == old(ghost.xa_state)
+//@   ensures not-live-leaves-the-connection-alone: auto || dead ==> c.xaActive == old(c.xaActive) && c.xaBranchXid == old(c.xaBranchXid) && c.isConnKept == old(c.isConnKept)
+//@   ensures the-branch-is-over-on-this-connection: live ==> !c.xaActive
+//@   nopanic
 
 //@ func (*XAConn).BeginTx
 //@   prop C17 C16
@@ -407,6 +410,7 @@ package sql
 //@   let auto := c.Conn.autoCommit
 //@   ensures success-means-prepared: auto && ghost.registers == 1 && ghost.reg_ok && result1 == nil ==> ghost.xa_state == 3 && ghost.f_ok
 //@   ensures nothing-committed-in-phase-one: old(ghost.xa_state) != 4 ==> ghost.xa_state != 4
+//@   ensures the-connection-is-ready-for-the-next-statement: auto ==> c.Conn.autoCommit && !c.xaActive
 //@   ensures_on_panic false
 
 // Phase two of an XA branch. finishBranch (registry and keeper lookup, or a new connection on a
